@@ -15,7 +15,8 @@ Equal(kind, a, b) ==
   IF kind = "smchart" THEN \A i \in 1..6 : Get(a, SMChartFields[i]) = Get(b, SMChartFields[i])
   ELSE a = b
 
-(* e: logged step [o, res, items, ser, cmp]; r: what the specification says *)
+(* e: logged step [o, res, items, ser, padded, cmp]; r: what the specification says                    *)
+(* (padded: an SM chart field with blanks at its ends - outside the serializer's domain, see C01)  *)
 Clause(kind, before, e, r) ==
   IF r.res.st # e.res.st THEN "result-status"
   ELSE IF r.res.val # e.res.val THEN "result-value"
@@ -24,7 +25,7 @@ Clause(kind, before, e, r) ==
   ELSE IF ~FrameOK(before, e.o, e.items) THEN "frame"
   ELSE IF ~AttrOK(before, e.o, e.res, e.items) THEN "attribute-view"
   ELSE IF kind = "smchart" /\ ~SMChartOK(e.items) THEN "smchart-fields"
-  ELSE IF Serializable(kind, e.items) /\ e.ser # <<SerView(kind, e.items)>> THEN "serialization"
+  ELSE IF Serializable(kind, e.items) /\ ~e.padded /\ e.ser # <<SerView(kind, e.items)>> THEN "serialization"
   ELSE IF \E c \in {e.cmp[i] : i \in DOMAIN e.cmp} :
             c.eq # Equal(kind, e.items, c.other) THEN "equality"
   ELSE ""
